@@ -20,56 +20,7 @@ fn stub_request_interrupt(_ic: &mut InterruptController, num: u8) {
     }
 }
 
-const O_TCSR: usize = (TCSR0_8 - IO_REGISTERS2_EMC1_START_ADDR) as usize;
-const O_TCORA: usize = (TCORA0 - IO_REGISTERS2_EMC1_START_ADDR) as usize;
-const O_TCORB: usize = (TCORB0 - IO_REGISTERS2_EMC1_START_ADDR) as usize;
-const O_TCNT: usize = (TCNT0_8 - IO_REGISTERS2_EMC1_START_ADDR) as usize;
-
-fn divisor(tcr: u8) -> u16 {
-    match tcr & 7 {
-        1 => 8,
-        2 => 64,
-        3 => 8192,
-        _ => 0,
-    }
-}
-
-struct RefT {
-    tcnt: u8,
-    tcsr: u8,
-    req: [u32; 3],
-}
-
-/// one count, as the statement describes it
-fn tick(t: &mut RefT, tcr: u8, tcora: u8, tcorb: u8) {
-    let (n, ovf) = t.tcnt.overflowing_add(1);
-    let mut next = n;
-    if n == tcora {
-        t.tcsr |= 0x40; // CMFA
-        if tcr & 0x40 != 0 {
-            t.req[0] += 1;
-        }
-        if tcr & 0x18 == 0x08 {
-            next = 0;
-        }
-    }
-    if n == tcorb {
-        t.tcsr |= 0x80; // CMFB
-        if tcr & 0x80 != 0 {
-            t.req[1] += 1;
-        }
-        if tcr & 0x18 == 0x10 {
-            next = 0;
-        }
-    }
-    if ovf {
-        t.tcsr |= 0x20; // OVF
-        if tcr & 0x20 != 0 {
-            t.req[2] += 1;
-        }
-    }
-    t.tcnt = next;
-}
+include!(concat!(env!("KOGE29_VERIF_DIR"), "/kani/c17_ref.rs"));
 
 fn any_bus() -> Bus {
     let mut bus = Bus::new(std::rc::Weak::new());
@@ -139,6 +90,9 @@ macro_rules! c17_range {
     };
 }
 // disjoint ranges whose union is every u8 charge 1..=255
+// a small, fast sub-range first: a defect that needs only a few counts per call is reported even when the
+// big ranges run into the solver limit on changed code
+c17_range!(c17_call_charge_001_024_fast, 1, 24);
 c17_range!(c17_call_charge_001_063, 1, 63);
 c17_range!(c17_call_charge_064_127, 64, 127);
 c17_range!(c17_call_charge_128_191, 128, 191);
@@ -179,5 +133,37 @@ fn c17_clock_change_keeps_phase_invariant() {
     assert!(t.prescaler == divisor(tcr1), "OBL:C17/update_tcr/divisor_follows_last_write");
     assert!(t.prescaler == 0 || t.state < t.prescaler, "OBL:C17/update_tcr/no_bunched_counts_after_clock_change");
     kani::cover!(divisor(tcr0) == 8192 && divisor(tcr1) == 8, "COVER:fast_after_slow");
+    kani::cover!(true, "REACH:end");
+}
+
+/// C15: ANY byte written to TCR (external-clock / cascade selections included) in any reachable timer
+/// state, followed by a module update, must not panic (division by zero, overflow).  Only the automatic
+/// checks count here; the charge is kept to 1..=63 because the panic-freedom argument does not depend on it
+/// (the full charge domain is covered by the c17_call_charge_* harnesses for the internal clocks).
+#[kani::proof]
+#[kani::unwind(34)]
+#[kani::stub(InterruptController::request_interrupt, stub_request_interrupt)]
+fn c15_timer_any_tcr_write() {
+    *crate::setting::ENABLE_PRINT_OPCODE.write().unwrap() = false;
+    let mut t = Timer8_0::new();
+    // a reachable state: some internal clock (or none) selected earlier, residual below its divisor
+    let tcr0: u8 = kani::any();
+    kani::assume(tcr0 & 7 <= 3);
+    t.update_tcr(tcr0);
+    let residual: u16 = kani::any();
+    kani::assume(if t.prescaler == 0 { residual < 8192 } else { residual < t.prescaler });
+    t.state = residual;
+    // now the guest writes an arbitrary byte
+    let tcr1: u8 = kani::any();
+    t.update_tcr(tcr1);
+    let mut bus = any_bus();
+    let s: u8 = kani::any();
+    kani::assume(s >= 1 && s <= 63);
+    let mut ic = InterruptController::new();
+    // only reachable-loop-bound states are of interest: skip the (excluded) case in which a kept residual exceeds a new divisor
+    kani::assume(t.prescaler == 0 || t.state < t.prescaler);
+    let r = t.update_timer8_0(&mut bus, s, &mut ic);
+    assert!(r.is_ok(), "OBL:C15/timer/update_after_any_tcr_write_is_ok");
+    kani::cover!(tcr1 & 7 >= 4, "COVER:external_clock_selection");
     kani::cover!(true, "REACH:end");
 }
